@@ -293,6 +293,8 @@ def check(repo, ctx, index, purity):
     r24(repo, ctx)
     r25(repo, ctx, index)
     r27(repo, ctx)
+    from .kwn import pbm_index_agreement
+    pbm_index_agreement(repo, ctx, 'R2.9')
     # R2.8: the record that is appended holds the statistics of the distribution that is stored (C01 R1.5, R1.9)
     from . import C01
     sub = type(ctx)(ctx.prop, ctx.repo, ctx.tier, ctx.seed)
